@@ -400,7 +400,8 @@ Definition v1_relays (p : v1prop) : list N :=
 
 Definition lookup1 (nil_guard : bool) (d : v1doc) (pubkey : N) : outcome (list N) cfg_err :=
   let entry := match find (fun e => fst e =? pubkey) (d1_proposers d) with
-               | Some (_, e) => e              (* exists, possibly nil *)
+               | Some (_, Some p) => Some p
+               | Some (_, None) => d1_default d   (* present but null is no entry: `!exists || proposerConfig == nil` *)
                | None => d1_default d
                end in
   match entry with
